@@ -139,6 +139,34 @@ def spell(n):
         dst, src = n.get("ty"), n["recv"].get("ty")
         if dst in INT_RANGE and src in INT_RANGE and INT_RANGE[dst][0] <= INT_RANGE[src][0] and INT_RANGE[src][1] <= INT_RANGE[dst][1]:
             return {"k": "Cast", "ty": dst, "sp": n.get("sp"), "e": n["recv"], "canon": "into"}
+    if k == "If" and n["cond"].get("k") == "LetCond" and not n.get("else"):
+        # `if let P = opt.filter(|_| c) { b }` with pure opt and c: `if c { if let P = opt { b } }`
+        c = n["cond"]
+        init = c["init"]
+        if init.get("k") == "MethodCall" and init.get("method") == "filter" and (init.get("path") or "").startswith("std::option::Option") and len(init.get("args", [])) == 1:
+            cl = tir.strip(init["args"][0])
+            if cl.get("k") == "Closure" and len(cl["params"]) == 1 and cl["params"][0].get("k") == "Wild" and pure_expr(cl["body"]) and pure_expr(init["recv"]):
+                inner = dict(n)
+                inner["cond"] = dict(c)
+                inner["cond"]["init"] = init["recv"]
+                return {"k": "If", "ty": n.get("ty"), "sp": n.get("sp"), "cond": cl["body"], "then": _as_block(inner), "canon": "filter-guard"}
+    if k == "Loop" and n.get("src") == "While":
+        # `while let Some(x) = it.next() { body }` with `it` a plain local not mentioned in the body is `for x in it { body }`
+        b = n.get("body") or {}
+        t = b.get("tail") if b.get("k") == "Block" and not b.get("stmts") else None
+        if isinstance(t, dict) and t.get("k") == "If" and t["cond"].get("k") == "LetCond" and t.get("else") is not None:
+            c = t["cond"]
+            p = c["pat"]
+            init = c["init"]
+            els = t["else"]
+            only_break = els.get("k") == "Block" and not els.get("tail") and len(els.get("stmts", [])) == 1 and (els["stmts"][0].get("e") or {}).get("k") == "Break" or (
+                els.get("k") == "Block" and not els.get("stmts") and (els.get("tail") or {}).get("k") == "Break")
+            if (p.get("k") == "TupleStruct" and (p.get("path") or "").endswith("::Some") and len(p.get("pats", [])) == 1 and only_break
+                    and init.get("k") == "MethodCall" and init.get("method") == "next" and (init.get("path") or "") == "std::iter::Iterator::next" and not init.get("args")):
+                it = init["recv"]
+                its = tir.strip(it)
+                if its.get("k") == "Path" and its.get("res") == "local" and not any(x.get("k") == "Path" and x.get("id") == its.get("id") for x in tir.walk(t["then"])):
+                    return {"k": "For", "ty": n.get("ty"), "sp": n.get("sp"), "pat": p["pats"][0], "iter": it, "body": t["then"], "canon": "while-let-next"}
     if k == "Struct" and (n.get("path") or "") == "std::ops::RangeTo" and len(n.get("fields", [])) == 1:
         end = n["fields"][0]
         out = dict(n)
@@ -769,12 +797,184 @@ def align_and_inline(doc, anchors):
     return renamed, inlined
 
 
+# ------------------------------------------------------------------------------------------------ F: loops as iterator forms
+
+def accumulations_to_sums(root):
+    """`let mut acc = 0; for p in xs { lets..; acc += e; }` (acc untouched elsewhere in between) is `let acc = xs.iter().map(|p| { lets..; e }).sum();`"""
+    n = 0
+    for blk in list(tir.walk(root)):
+        if blk.get("k") != "Block":
+            continue
+        stmts = blk.get("stmts", [])
+        i = 0
+        while i < len(stmts):
+            s = stmts[i]
+            p = s.get("pat") if s.get("k") == "Let" else None
+            if not (p and p.get("k") == "Bind" and "Mut" in (p.get("mode") or "").split(",")[-1] and tir.lit_int(s.get("init") or {}) == 0 and tir.strip(s["init"]).get("k") == "Lit"):
+                i += 1
+                continue
+            acc = p["id"]
+            j = None
+            for k2 in range(i + 1, len(stmts)):
+                if any(x.get("k") in ("Path",) and x.get("id") == acc for x in tir.walk(stmts[k2])):
+                    j = k2
+                    break
+            f = tir.strip(stmts[j].get("e") or {}) if j is not None and stmts[j].get("k") == "Expr" else {}
+            if f.get("k") != "For" or f["pat"].get("k") not in ("Bind", "Tuple", "Ref"):
+                i += 1
+                continue
+            body = f["body"]
+            bst = body.get("stmts", []) if body.get("k") == "Block" else []
+            if body.get("k") != "Block" or body.get("tail") is not None or not bst:
+                i += 1
+                continue
+            last = bst[-1].get("e") if bst[-1].get("k") == "Expr" else None
+            lets = bst[:-1]
+            ok = (isinstance(last, dict) and last.get("k") == "AssignOp" and last.get("op") in ("Add", "AddAssign") and tir.strip(last["l"]).get("id") == acc
+                  and all(x.get("k") == "Let" for x in lets)
+                  and not any(y.get("k") == "Path" and y.get("id") == acc for x in lets for y in tir.walk(x))
+                  and not any(y.get("k") == "Path" and y.get("id") == acc for y in tir.walk(last["r"]))
+                  and not any(y.get("k") in ("Break", "Continue", "Ret", "Try") for y in tir.walk(body)))
+            if not ok:
+                i += 1
+                continue
+            it = f["iter"]
+            if it.get("k") == "AddrOf" and not it.get("mut"):
+                src = {"k": "MethodCall", "ty": None, "sp": it.get("sp"), "method": "iter", "path": "core::slice::<impl [T]>::iter", "recv": it["e"], "args": [], "canon": "for-iter"}
+            else:
+                src = {"k": "MethodCall", "ty": None, "sp": it.get("sp"), "method": "into_iter", "path": "std::iter::IntoIterator::into_iter", "recv": it, "args": [], "canon": "for-iter"}
+            cl = {"k": "Closure", "ty": None, "sp": f.get("sp"), "def": None, "params": [f["pat"]], "body": {"k": "Block", "ty": p.get("ty"), "sp": body.get("sp"), "stmts": lets, "tail": last["r"]}}
+            mp = {"k": "MethodCall", "ty": None, "sp": f.get("sp"), "method": "map", "path": "std::iter::Iterator::map", "recv": src, "args": [cl]}
+            sm = {"k": "MethodCall", "ty": p.get("ty"), "sp": f.get("sp"), "method": "sum", "path": "std::iter::Iterator::sum", "gargs": [p.get("ty")], "recv": mp, "args": [], "canon": "accumulation"}
+            q = dict(p)
+            q["mode"] = "BindingMode(No, Not)"
+            stmts[j] = {"k": "Let", "sp": s.get("sp"), "pat": q, "init": sm, "canon": "accumulation"}
+            del stmts[i]
+            n += 1
+        blk["stmts"] = stmts
+    return n
+
+
+def try_for_each_to_for(root):
+    """`xs.try_for_each(|p| { ..; tail })?;` as a statement is `for p in xs { ..; tail?; }`; in tail position of a body it is that loop
+    followed by `Ok(())`. (`for_each` likewise, without the `?`.)"""
+    n = 0
+
+    def closure_ok(cl):
+        return cl.get("k") == "Closure" and len(cl["params"]) == 1 and not any(x.get("k") == "Ret" for x in _strip_closures(cl["body"]))
+
+    def make_for(call, with_try):
+        cl = tir.strip(call["args"][0])
+        body = _as_block(copy.copy(cl["body"]))
+        body = dict(body)
+        st = list(body.get("stmts", []))
+        t = body.get("tail")
+        if t is not None:
+            st.append({"k": "Expr", "e": ({"k": "Try", "ty": "()", "sp": t.get("sp"), "e": t} if with_try else t), "semi": True})
+        body["stmts"], body["tail"] = st, None
+        return {"k": "For", "ty": "()", "sp": call.get("sp"), "pat": cl["params"][0], "iter": call["recv"], "body": body, "canon": "try_for_each"}
+    for blk in list(tir.walk(root)):
+        if blk.get("k") != "Block":
+            continue
+        for i, s in enumerate(blk.get("stmts", [])):
+            e = s.get("e") if s.get("k") == "Expr" else None
+            if not isinstance(e, dict):
+                continue
+            if e.get("k") == "Try" and e["e"].get("k") == "MethodCall" and e["e"].get("method") == "try_for_each" and len(e["e"].get("args", [])) == 1 and closure_ok(tir.strip(e["e"]["args"][0])):
+                blk["stmts"][i] = {"k": "Expr", "e": make_for(e["e"], True), "semi": True}
+                n += 1
+            elif e.get("k") == "MethodCall" and e.get("method") == "for_each" and len(e.get("args", [])) == 1 and closure_ok(tir.strip(e["args"][0])):
+                blk["stmts"][i] = {"k": "Expr", "e": make_for(e, False), "semi": True}
+                n += 1
+        t = blk.get("tail")
+        if isinstance(t, dict) and t.get("_tail") is not None and t.get("k") == "MethodCall" and t.get("method") == "try_for_each" and len(t.get("args", [])) == 1 and closure_ok(tir.strip(t["args"][0])):
+            ok_unit = {"k": "Call", "ty": t.get("ty"), "sp": t.get("sp"), "res": "def", "dk": "Ctor(Variant, Fn)", "path": "std::prelude::v1::Ok", "args": [{"k": "Tup", "ty": "()", "sp": t.get("sp"), "elems": []}]}
+            blk["stmts"] = list(blk.get("stmts", [])) + [{"k": "Expr", "e": make_for(t, True), "semi": True}]
+            blk["tail"] = ok_unit
+            n += 1
+    return n
+
+
+# ------------------------------------------------------------------------------------------------ G: guard clauses
+
+def _is_err_value(e):
+    e = tir.strip(e or {})
+    return e.get("k") == "Call" and (e.get("path") or "").endswith("::Err")
+
+
+def _ends_with_plain_return(blk):
+    """(prefix statements, returned value) when the block is `{ stmts..; return X; }` / `{ stmts..; return X }` with X not an Err(..)"""
+    if blk.get("k") != "Block":
+        return None
+    stmts = list(blk.get("stmts", []))
+    last = blk.get("tail")
+    if last is None and stmts and stmts[-1].get("k") == "Expr":
+        last = stmts[-1]["e"]
+        stmts = stmts[:-1]
+    if not isinstance(last, dict) or last.get("k") != "Ret" or last.get("e") is None or _is_err_value(last["e"]):
+        return None
+    if any(x.get("k") == "Ret" for s in stmts for x in tir.walk(s)):
+        return None
+    return stmts, last["e"]
+
+
+def guards_to_if_else(body_root):
+    """In the tail chain of a function body, `if c { ..; return X; } rest` (X not an error) becomes `if c { ..; X } else { rest }`:
+    in tail position returning X and evaluating to X are the same thing."""
+    n = 0
+    blk = body_root
+    while isinstance(blk, dict) and blk.get("k") == "Block":
+        stmts = blk.get("stmts", [])
+        hit = None
+        for i, s in enumerate(stmts):
+            e = s.get("e") if s.get("k") == "Expr" else None
+            if isinstance(e, dict) and e.get("k") == "If" and e["cond"].get("k") != "LetCond" and not e.get("else"):
+                r = _ends_with_plain_return(e["then"])
+                if r is not None:
+                    hit = (i, e, r)
+                    break
+            # anything else that returns makes the rest of the chain not a pure tail: stop
+            if any(x.get("k") == "Ret" and not _is_err_value(x.get("e")) for x in tir.walk(s) if x.get("k") == "Ret"):
+                break
+        if hit is None:
+            t = blk.get("tail")
+            # follow into an if/else in tail position: both branches are tails
+            if isinstance(t, dict) and t.get("k") == "If" and t.get("else"):
+                n += guards_to_if_else(t["then"]) + guards_to_if_else(t["else"])
+            return n
+        i, e, (pre, val) = hit
+        rest = {"k": "Block", "ty": blk.get("ty"), "sp": e.get("sp"), "stmts": stmts[i + 1:], "tail": blk.get("tail"), "canon": "guard-else"}
+        new_if = {"k": "If", "ty": blk.get("ty"), "sp": e.get("sp"), "cond": e["cond"],
+                  "then": {"k": "Block", "ty": blk.get("ty"), "sp": e["then"].get("sp"), "stmts": pre, "tail": val},
+                  "else": rest, "canon": "guard-clause"}
+        blk["stmts"] = stmts[:i]
+        blk["tail"] = new_if
+        n += 1
+        blk = rest
+    return n
+
+
 # ------------------------------------------------------------------------------------------------ entry point
 
 def canonicalise(doc):
     with open(os.path.join(VERIF, "rules", "anchors.json")) as fh:
         anchors = json.load(fh)["fns"]
+    n_guards = 0
+    for b in doc["bodies"]:
+        if b.get("tir") and b["kind"] in ("Fn", "AssocFn"):
+            n_guards += guards_to_if_else(b["tir"]["value"])
+    if n_guards:
+        doc["_guard_clauses"] = n_guards
     rep = inline_helpers(doc, anchors)
+    n_loops = 0
+    for b in doc["bodies"]:
+        if b.get("tir") and b["kind"] in ("Fn", "AssocFn"):
+            mark_tails(b["tir"]["value"])
+            n_loops += try_for_each_to_for(b["tir"]["value"])
+            clear_tails(b["tir"]["value"])
+            n_loops += accumulations_to_sums(b["tir"]["value"])
+    if n_loops:
+        doc["_loop_forms"] = n_loops
     for b in doc["bodies"]:
         if b.get("tir"):
             b["tir"]["value"] = rewrite(b["tir"]["value"], spell)
